@@ -2,13 +2,14 @@
 # usage: variantcheck.sh <patch.diff> <prop>...   — run checks against a scratch copy of /repo with the patch applied.
 # /repo itself is not touched and /verif/evidence keeps describing /repo (evidence of the variant goes to /tmp/mechverif-variant/evidence).
 P=$(readlink -f "$1"); shift
-V=/tmp/mechverif-variant
+VERIF_DIR=${VERIF_CLONE:-/verif}
+V=/tmp/mechverif-variant; [ -n "$VERIF_CLONE" ] && V=$(dirname $VERIF_CLONE)/variant
 mkdir -p $V/repo $V/evidence
 rsync -a --delete --exclude target --exclude .git /repo/ $V/repo/
 ( cd $V/repo && git apply "$P" ) || { echo "patch does not apply"; exit 2; }
 rc=0
 for prop in "$@"; do
-  out=$(cd /verif && MECH_REPO=$V/repo VERIF_EVIDENCE_DIR=$V/evidence python3 verif.py $prop 2>&1)
+  out=$(cd $VERIF_DIR && MECH_REPO=$V/repo VERIF_EVIDENCE_DIR=$V/evidence python3 verif.py $prop 2>&1)
   echo "$out" | grep -E "violation:" | cut -c1-300 | head -${VC_MAX:-8}
   echo "$out" | grep -E "^VIOLATION|INFRA|obligations" | cut -c1-300
   echo "$out" | grep -q "^VIOLATION" && rc=1
